@@ -1,4 +1,4 @@
 CONSTANTS N = 2  Tokens = {"t1"}  Outcomes = {"ok", "err"}  Disabled = TRUE  MaxSteps = 6  Variant = "code"
 SPECIFICATION Spec
-INVARIANTS TypeOK Counter HealthyIff Export
+INVARIANTS TypeOK Counter Clock HealthyIff Export
 CHECK_DEADLOCK FALSE
